@@ -794,6 +794,8 @@ class FlexWindow(Strategy):
                 avail_power = min(avail_power, gc.cur_max_power - gc.get_current_load())
                 avail_power = (0 if avail_power < vehicle.vehicle_type.min_charging_power
                                else avail_power)
+                # respect charging station limits (already charged in this timestep)
+                avail_power = util.clamp_power(avail_power, vehicle, cs)
                 charge = vehicle.battery.load(self.interval, max_power=avail_power)["avg_power"]
                 commands[cs_id] = gc.add_load(cs_id, charge)
                 cs.current_power += charge
